@@ -12,12 +12,13 @@ Theorem C20_name_filter : forall io iname g A B, name_filter_ok iname (diff_f io
 Proof. intros io iname g A B o Ho. apply (diff_f_In io iname g _ _ o Ho). Qed.
 Print Assumptions C20_name_filter.
 
-(* on objects neither filter rejects (acc: names accepted; the include_object calls the unfiltered comparison makes for the
-   operation's table and object say yes) the filtered and the unfiltered comparison contain the same operations *)
+(* on objects neither filter rejects (acc: names accepted - for an added foreign key also the names of the reflected keys
+   with the same signature, which is what identifies a foreign key; the include_object calls the unfiltered comparison
+   makes for the operation's table and object say yes) the filtered and the unfiltered comparison contain the same operations *)
 Theorem C20_conservative : forall io iname g A B o, wf_schemab A = true -> wf_schemab B = true ->
   acc io iname (reflect_sqlite A) B o = true ->
   (In o (diff_f io iname g (reflect_sqlite A) B) <-> In o (diff g (reflect_sqlite A) B)).
-Proof. intros io iname g A B o HA HB. rewrite reflect_sqlite_id. apply diff_f_conservative; apply wf_nd_schema; auto. Qed.
+Proof. intros io iname g A B o HA HB. apply diff_f_conservative; [apply nd_schema_reflect|]; apply wf_nd_schema; auto. Qed.
 Print Assumptions C20_conservative.
 
 Theorem C20_decider_sound : forall i out, check_C20 i out = true -> C20_holds i out.
@@ -29,21 +30,23 @@ Proof. exact model_C20_holds. Qed.
 Print Assumptions C20_model_holds.
 
 (* non-vacuity: a pair with real differences and filters that reject a table name, a column (object filter), an index
-   (object filter only when reflected) and a unique-constraint name; the filtered comparison differs from the plain one,
+   (object filter only when reflected), a new foreign key (object filter), a unique-constraint name and a reflected foreign-key name; the filtered comparison differs from the plain one,
    is in the class, and the decider accepts the model's output *)
 Open Scope N_scope.
 Definition ex20_A : schema :=
-  [mkTable 0 [mkCol 0 (mkTy 0 []) false true; mkCol 1 (mkTy 3 [20]) true false; mkCol 2 (mkTy 5 [10;2]) true false]
-             [Uq 1 [1]; Ix 2 [2;1] false];
-   mkTable 1 [mkCol 0 (mkTy 0 []) false true] []].
+  [mkTable 0 [mkCol 0 (mkTy 0 []) false true None; mkCol 1 (mkTy 3 [20]) true false (Some (DLit [53])); mkCol 2 (mkTy 5 [10;2]) true false None]
+             [Uq 1 [1]; Ix 2 [2;1] false] [mkFk 0 [2] 0 [0]; mkFk 1 [1] 0 [0]];
+   mkTable 1 [mkCol 0 (mkTy 0 []) false true None] [] []].
 Definition ex20_B : schema :=
-  [mkTable 0 [mkCol 0 (mkTy 0 []) false true; mkCol 1 (mkTy 4 []) false false; mkCol 3 (mkTy 9 []) true false] [Ix 1 [1] true];
-   mkTable 2 [mkCol 0 (mkTy 0 []) false true; mkCol 1 (mkTy 1 []) true false] [Uq 20 [1]; Ix 21 [1;0] false]].
+  [mkTable 0 [mkCol 0 (mkTy 0 []) false true None; mkCol 1 (mkTy 4 []) false false (Some (DExpr [39;54;39])); mkCol 3 (mkTy 9 []) true false None]
+             [Ix 1 [1] true] [mkFk 3 [3] 0 [0]];
+   mkTable 2 [mkCol 0 (mkTy 0 []) false true None; mkCol 1 (mkTy 1 []) true false None] [Uq 20 [1]; Ix 21 [1;0] false] [mkFk 20 [1] 0 [0]]].
 Definition ex20_f : filt :=
-  mkFilt [((NColumn 0 3, false, false), false); ((NIx 0 2, true, false), false)] true [(NTable 1, false); (NUq 0 1, false)] true.
+  mkFilt [((NColumn 0 3, false, false), false); ((NIx 0 2, true, false), false); ((NFk 0 3, false, false), false)] true
+         [(NTable 1, false); (NUq 0 1, false); (NFk 0 1, false)] true.
 Example C20_nonvacuous :
   inclass_C20 (ex20_A, ex20_B, ex20_f) = true /\
   check_C20 (ex20_A, ex20_B, ex20_f) (model_C20 (ex20_A, ex20_B, ex20_f)) = true /\
-  length (o_plain (model_C20 (ex20_A, ex20_B, ex20_f))) = 9%nat /\
-  length (o_filtered (model_C20 (ex20_A, ex20_B, ex20_f))) = 5%nat.
+  negb (Nat.eqb (length (o_plain (model_C20 (ex20_A, ex20_B, ex20_f)))) (length (o_filtered (model_C20 (ex20_A, ex20_B, ex20_f))))) = true /\
+  negb (is_nil (o_filtered (model_C20 (ex20_A, ex20_B, ex20_f)))) = true.
 Proof. vm_compute. auto. Qed.
